@@ -4,6 +4,7 @@ import Driver.Util
 import RelicVerif.Spec.Gf2
 import RelicVerif.Spec.BinCurve
 import RelicVerif.Model.BinFast
+import RelicVerif.Model.Tnaf
 
 namespace Driver.C16
 open Driver Relic.Spec.Gf2 Relic.Spec.BinCurve
@@ -343,7 +344,52 @@ def updCache (ee : Option EEnv) (cache : Cache) (op : String) (args : List Strin
       if p == none || (cache.lookup p).isSome then cache
       else ((p, BinFast.dblChain e.fc (e.c.F.m + 12) p) :: cache).take 48) cache
 
+/-- τ-adic recodings (context-free): the model column is the digit string of Model/Tnaf.lean, the specification column
+    the defining property: digits zero or odd below 2^(w-1), Σ α(d_i) τ^i ≡ |k| modulo τ^m - 1 -/
+def handleTnaf (w : Nat) (op : String) (args : List String) (got : String) : Option Verdict :=
+  match op, args with
+  | "bn_tnaf", [kind, u, m, wd, cap, k] => do
+    let u ← u.toInt?
+    let m ← m.toNat?
+    let wd ← wd.toNat?
+    let cap ← cap.toNat?
+    let k ← (parseBn w k).map (Relic.Model.Bn.toInt (2 ^ w))
+    let kn := k.natAbs
+    if kind == "mod" then
+      let r := Relic.Model.Tnaf.tnafMod kn u m
+      let mdl := fmtIntNF w r.1 ++ " " ++ fmtIntNF w r.2
+      -- spec: what the implementation printed denotes an element congruent to |k|
+      let ok := match got.splitOn " " with
+        | [a, b] => match parseHexInt ((a.splitOn ":").headD ""), parseHexInt ((b.splitOn ":").headD "") with
+          | some r0, some r1 => Relic.Model.Tnaf.congTauM u m (r0, r1) ((kn : Int), 0)
+          | _, _ => false
+        | _ => false
+      some { model := mdl, spec := if ok then [got] else ["<r0 r1 with r0 + r1 tau = |k| mod tau^m - 1>"] }
+    else if kind == "tnaf" then
+      match Relic.Model.Tnaf.recTnaf cap kn u m wd with
+      | none => cls "err"
+      | some ds =>
+        let body := "len=" ++ toString ds.length ++ (if ds.isEmpty then "" else " " ++ String.intercalate "," (ds.map toString))
+        let mdl := body ++ (if ds.length > cap then " WROTE-PAST-CAP" else "")
+        -- spec column: judge the digits the implementation printed
+        let toks := got.splitOn " "
+        let gd : Option (List Int) := match toks with
+          | [_] => some []
+          | [_, d] => (d.splitOn ",").mapM String.toInt?
+          | _ => none
+        let ok := match gd with
+          | some g =>
+            toks.headD "" == "len=" ++ toString g.length && g.length ≤ cap &&
+            g.all (fun d => d == 0 || (d % 2 != 0 && d.natAbs < 2 ^ (wd - 1))) &&
+            Relic.Model.Tnaf.congTauM u m (Relic.Model.Tnaf.evalDigits u wd g) ((kn : Int), 0)
+          | none => false
+        some { model := mdl, spec := if ok then [got] else ["<at most cap digits, zero or odd < 2^(w-1), denoting |k| mod tau^m - 1>"],
+               tags := ["tnaf.w" ++ toString wd] }
+    else none
+  | _, _ => none
+
 def handle (fe : Option FEnv) (ee : Option EEnv) (cache : Cache) (w : Nat) (op : String) (args : List String) (got : String) : Option Verdict :=
+  (handleTnaf w op args got) <|>
   (match fe with
     | some e => handleField e w op args got
     | none => none) <|>
